@@ -10,6 +10,14 @@ CACHE = os.path.join(ROOT, ".cache")
 ALLOWED_AXIOMS = {"propext", "Classical.choice", "Quot.sound"}
 FORBIDDEN = re.compile(r"\b(sorry|admit|native_decide|bv_decide|implemented_by|unsafe)\b|^\s*axiom\s|maxHeartbeats\s+0\b", re.M)
 
+TYPEHASH_CMD = """
+open Lean Elab Command in
+elab "#typehash " id:ident : command => do
+  let n ← liftCoreM <| realizeGlobalConstNoOverloadWithInfo id
+  let ci ← getConstInfo n
+  logInfo m!"TYPEHASH {n} {ci.type.hash}"
+"""
+
 TRUSTED_BASE = [
     "Lean 4.33 kernel; axioms propext, Classical.choice, Quot.sound only (audited per theorem on every run); no native_decide/bv_decide/custom axioms/sorry",
     "Mathlib v4.33 as compiled on the image",
@@ -90,18 +98,25 @@ def prove(pid: str):
         if thms:
             audit = os.path.join(CACHE, f"Audit_{pid}.lean")
             with open(audit, "w") as f:
+                f.write("import Lean\n")
                 for m in sorted({t["module"] for t in thms}):
                     f.write(f"import {m}\n")
+                f.write(TYPEHASH_CMD)
                 for t in thms:
-                    f.write(f"#print axioms {t['name']}\n")
+                    f.write(f"#print axioms {t['name']}\n#typehash {t['name']}\n")
             rc, out = sh(["lake", "env", "lean", audit], cwd=LEAN)
             res["audit_out"] = out[-6000:]
             found = {}
             for mm in re.finditer(r"'(\S+)' (depends on axioms: \[([^\]]*)\]|does not depend on any axioms)", out.replace("\n ", " ").replace("\n", " ")):
                 axs = {a.strip() for a in (mm.group(3) or "").split(",") if a.strip()}
                 found[mm.group(1)] = axs
+            hashes = dict(re.findall(r"TYPEHASH (\S+) (\d+)", out))
+            res["typehashes"] = hashes
             for t in thms:
                 nm = t["name"]
+                if t.get("typehash") and hashes.get(nm) and str(t["typehash"]) != hashes[nm]:
+                    res["failed"].append(f"{nm}: statement differs from the pinned one (theorem was restated)")
+                    continue
                 if nm not in found:
                     res["failed"].append(f"{nm}: not found / audit error")
                 elif not found[nm] <= ALLOWED_AXIOMS:
